@@ -59,7 +59,7 @@ func loadPkg(rel string) *gpkg {
 				p.funcs[fd.Name.Name] = fd
 				continue
 			}
-			t := typeName(fd.Recv.List[0].Type)
+			t := gTypeName(fd.Recv.List[0].Type)
 			if t == "" {
 				continue
 			}
@@ -72,10 +72,10 @@ func loadPkg(rel string) *gpkg {
 	return p
 }
 
-func typeName(e ast.Expr) string {
+func gTypeName(e ast.Expr) string {
 	switch x := e.(type) {
 	case *ast.StarExpr:
-		return typeName(x.X)
+		return gTypeName(x.X)
 	case *ast.Ident:
 		return x.Name
 	}
@@ -242,7 +242,7 @@ func funcEnv(fd *ast.FuncDecl, p *gpkg) env {
 			return
 		}
 		for _, f := range fl.List {
-			t := typeName(f.Type)
+			t := gTypeName(f.Type)
 			if _, ok := p.methods[t]; ok {
 				for _, n := range f.Names {
 					ev[n.Name] = t
@@ -534,7 +534,7 @@ func (a *ganalysis) walkStmt(st ast.Stmt, c gctx, ev env, retLevel, root bool, r
 					r = u.X
 				}
 				if cl, ok := r.(*ast.CompositeLit); ok {
-					if t := typeName(cl.Type); t != "" {
+					if t := gTypeName(cl.Type); t != "" {
 						if _, ok := a.p.methods[t]; ok {
 							ev[id.Name] = t
 						}
@@ -832,14 +832,6 @@ func analyse(p *gpkg, recv string, fd *ast.FuncDecl, variant string, facts map[s
 	}
 	a.inline(fd, recv+"."+fd.Name.Name, gctx{}, true)
 	return a
-}
-
-func leanStrList(l []string) string {
-	q := make([]string, len(l))
-	for i, s := range l {
-		q[i] = leanStr(s)
-	}
-	return "[" + strings.Join(q, ", ") + "]"
 }
 
 func genHandlerGuards() {
